@@ -496,6 +496,12 @@ impl Inst {
     }
 }
 
+thread_local! {
+    /// when set, members of type float occasionally get a literal beyond the f32 range (finite as f64):
+    /// such an instance does not conform, the document is still a legal A2L document (C01/C02 use it)
+    pub static HUGE_FLOATS: std::cell::Cell<bool> = const { std::cell::Cell::new(false) };
+}
+
 fn gen_scalar(rng: &mut Rng, s: Sc) -> Tok {
     match s.bits_signed() {
         Some((bits, signed)) => {
@@ -530,7 +536,10 @@ fn gen_scalar(rng: &mut Rng, s: Sc) -> Tok {
             }
         }
         None => {
-            if s == Sc::Float {
+            if s == Sc::Float && HUGE_FLOATS.with(|h| h.get()) && rng.chance(1, 5) {
+                let (v, t) = *rng.pick(&[(3.5e38, "3.5e38"), (-1e39, "-1e39"), (1e300, "1e300"), (-3.5e38, "-3.5E+38")]);
+                Tok::float(v, t.to_string())
+            } else if s == Sc::Float {
                 let v = (rng.range(-40000, 40000) as f32) / 16.0;
                 Tok::float(f64::from(v), format!("{v}"))
             } else {
@@ -550,15 +559,39 @@ fn gen_string(rng: &mut Rng, maxlen: usize) -> Tok {
     // the full length n of char[n] is legal and a boundary worth meeting often
     let len = if rng.chance(1, 6) { maxlen } else { rng.below(maxlen + 1) };
     let mut s = String::new();
+    let mut text = String::new();
+    // one string in five has backslashes (and nothing else that needs an escape)
+    let backslashes = rng.chance(1, 5);
     while s.len() < len {
         match rng.below(12) {
-            0 if s.len() + 2 <= len => s.push('é'),
-            1 => s.push(' '),
-            2 => s.push('_'),
-            _ => s.push((b'a' + rng.below(26) as u8) as char),
+            0 if s.len() + 2 <= len => {
+                s.push('é');
+                text.push('é');
+            }
+            1 => {
+                s.push(' ');
+                text.push(' ');
+            }
+            2 => {
+                s.push('_');
+                text.push('_');
+            }
+            3 | 4 if backslashes => {
+                s.push('\\');
+                text.push_str("\\\\");
+            }
+            5 if backslashes => {
+                s.push('n');
+                text.push('n');
+            }
+            _ => {
+                let c = (b'a' + rng.below(26) as u8) as char;
+                s.push(c);
+                text.push(c);
+            }
         }
     }
-    Tok::string(&s, format!("\"{s}\""))
+    Tok::string(&s, format!("\"{text}\""))
 }
 
 pub fn gen_instance_of(rng: &mut Rng, t: &AType, inst: &mut Inst) {
